@@ -7,7 +7,16 @@ name=$1; diff=$2; tier=$3; shift 3
 scratch=/dev/shm/mutant.$name.$$
 rm -rf $scratch; mkdir -p $scratch
 git -C /repo archive HEAD | tar -x -C $scratch
-if ! (cd $scratch && git init -q . >/dev/null 2>&1; git -C $scratch apply --whitespace=nowarn $diff); then echo "PATCH-DOES-NOT-APPLY $name"; rm -rf $scratch; exit 3; fi
+if ! (cd $scratch && git init -q . >/dev/null 2>&1; git -C $scratch apply --whitespace=nowarn $diff 2>/dev/null); then
+  # the patch was written against an older commit: merge it three-way in a scratch worktree of /repo
+  rm -rf $scratch
+  git -C /repo worktree add -q --detach $scratch HEAD || { echo "PATCH-DOES-NOT-APPLY $name"; exit 3; }
+  if ! git -C $scratch apply -3 --whitespace=nowarn $diff >/dev/null 2>&1 || git -C $scratch diff --name-only --diff-filter=U | grep -q .; then
+    echo "PATCH-DOES-NOT-APPLY $name (three-way merge conflicts)"; git -C /repo worktree remove --force $scratch; exit 3
+  fi
+  echo "PATCH-MERGED-3WAY $name"
+  cp -r $scratch $scratch.copy && git -C /repo worktree remove --force $scratch && mv $scratch.copy $scratch
+fi
 rm -rf $scratch/.git
 out=/dev/shm/mutant-out.$name.$$; mkdir -p $out
 for p in "$@"; do
